@@ -31,7 +31,7 @@ func parseTime(format, dateTime string, tzLoc *time.Location, formatFixupState i
 			}
 		}
 
-		parsedTime = time.Unix(sec, nsec).In(tzLoc)
+		parsedTime = time.Unix(sec, nsec).In(tz) // tzLoc is nil when no timezone is configured
 		formatFixupState = 0
 	} else {
 		parsedTime, err = time.ParseInLocation(format, dateString, tz)
